@@ -953,7 +953,7 @@ func main() {
 	srcQ := make(chan srcCase, 4096)
 	var wgAPI, wgSrc sync.WaitGroup
 	// share of slice cases that also run as source (all other cases always do)
-	srcShare := uint64(env.Pick(24, 12))
+	srcShare := uint64(env.Pick(24, 48))
 	nAPI := 4
 	nSrc := 4
 	if env.Workers < 8 {
